@@ -14,6 +14,7 @@
 import AdfProofs.BitmapLemmas
 import AdfProps.C04
 import AdfProofs.NoLeakLemmas
+import AdfProofs.UndelRestore
 namespace Adf.C05
 open Adf
 
@@ -123,5 +124,48 @@ theorem C05_create_entry_takes_one_or_none (c : Cfg) (v : Nat) (dir : Blk) (name
 /-- the hypothesis holds for every table the library builds (pages decoded from sectors, then bits set / cleared) -/
 example (bytes : Bytes) (n : Nat) (f : Bool) : TableWF (bmSetWord [blkOfBytes bytes] n f) :=
   bmSetWord_wf _ _ _ (by intro p hp; simp only [List.mem_singleton] at hp; subst hp; exact blkOfBytes_wf bytes)
+
+/-- **a refused undelete gives every block back** (`adfUndelFile`, model `undelFileLink`; the defect repaired by the
+    give-back exit cannot return without breaking this): for every disk content, block lists — also lists naming a block
+    twice or naming the header block —, volume type, volume state and fault schedule, when the call ends without having
+    linked the file (a block of it belongs to another file by now, the name exists again, the parent cannot be read, a
+    write is refused), the free map is block for block what it was when the call began. -/
+theorem C05_refused_undelete_restores_free_map (c : Cfg) (v pSect : Nat) (entry : Blk) (data exts : List Nat) (s : St)
+    (hwf : TableWF (s.mem.vol v).bitmapTable) (hfree : bmIsFree (s.mem.vol v).bitmapTable (entry.w F_headerKey) = true) :
+    Post AnyFault c (undelFileLink v pSect entry data exts) s (fun r s' => r.2 = none → FreeMapEq v s.mem s'.mem) :=
+  undelFileLink_refused_restores c v pSect entry data exts s hwf hfree
+
+/-- **`adfUndelDir` takes the directory's block exactly when it links the directory** (volumes without directory cache): after
+    the call either the free map is block for block what it was (every refusal), or a successful link write for the
+    directory's block is in the call's write log and exactly that block, free before, is used now. -/
+theorem C05_undelete_dir_takes_one_or_none (c : Cfg) (v pSect : Nat) (entry : Blk) (s : St)
+    (hwf : TableWF (s.mem.vol v).bitmapTable) (hnc : isDIRCACHE (c.vol v).dosType = false) :
+    Post AnyFault c (undelDir v pSect entry) s (fun _ s' => FreeMapEq v s.mem s'.mem ∨
+      (Linked c v (entry.w F_headerKey) s s' ∧ FreeMapStep v s.mem s'.mem (some (entry.w F_headerKey)))) :=
+  undelDir_takes_one_or_none c v pSect entry s hwf hnc
+
+/-- the two halves of the give-back bookkeeping: marking a free block and releasing it again restore the map pointwise,
+    whatever else was marked in between (`Part` is the invariant: marked set `M`, released set `F`) -/
+theorem C05_all_given_back_is_restored (v : Nat) (m0 m : Mem) (M F : List Nat)
+    (h : Part v (m0.vol v).bitmapTable M F m) (hall : ∀ k ∈ M, k ∈ F) : FreeMapEq v m0 m :=
+  h.done hall
+
+/-- non-vacuity of the undelete theorems' hypotheses: the 40-block volume of C04 (`smallTbl`: blocks 2..39 free except 20
+    and 21) as the library's memory state — the table is well-formed, block 22 (a deleted entry's header) is free, and the
+    marking loop on the list [23, 20, 24] marks block 23 and stops at block 20, which is in use -/
+def undelExState : St :=
+  { mem := { vols := [{ hasBitmap := true, bitmapSize := 1, bitmapBlocks := [21], bitmapTable := C04.smallTbl, bitmapChg := [false] }] } }
+
+example : TableWF (undelExState.mem.vol 0).bitmapTable ∧ bmIsFree (undelExState.mem.vol 0).bitmapTable 22 = true ∧
+          bmIsFree (undelExState.mem.vol 0).bitmapTable 20 = false := by
+  refine ⟨?_, by decide, by decide⟩
+  intro p hp
+  have : p = [0, 0xFFF3FFFF, 0x3F] ++ List.replicate 125 0 := by
+    simpa [undelExState, Mem.vol, C04.smallTbl] using hp
+  subst this
+  refine ⟨by simp, ?_⟩
+  intro w hw
+  simp only [List.mem_append, List.mem_cons, List.mem_replicate, List.not_mem_nil, or_false] at hw
+  omega
 
 end Adf.C05
